@@ -76,6 +76,8 @@ def check(rep, tier, seed):
             if m["seekable"]:
                 a = [l for l in li if not l.startswith("prop ")]
                 b = mc.get(kk)
+                if b is not None:
+                    b = [l for l in b if not l.startswith(common.MODEL_ONLY)]
                 if b is not None and a != b:
                     d = next((j for j in range(min(len(a), len(b))) if a[j] != b[j]), min(len(a), len(b)))
                     bad_tie.append({"case": kk, "line": d, "impl": (a[d] if d < len(a) else None), "model": (b[d] if d < len(b) else None),
